@@ -35,9 +35,9 @@ let sfile_ s = match list s with
   | _ -> failwith "sfile"
 let project_ s = list_ sfile_ s
 let config_ s = match list s with
-  | [lib; pr; maps; pc; fc; viz; force] ->
+  | [lib; pr; maps; pc; fc; viz; force; pp] ->
       { M.g_lib = str_ lib; g_private = bool_ pr; g_maps = opt_ (list_ (pair_ str_ str_)) maps;
-        g_pcase = str_ pc; g_fcase = str_ fc; g_viz = bool_ viz; g_force = bool_ force }
+        g_pcase = str_ pc; g_fcase = str_ fc; g_viz = bool_ viz; g_force = bool_ force; g_ppath = str_ pp }
   | _ -> failwith "config"
 let sched_ s = match list s with
   | [f; m] -> { M.w_files = list_ nat_ f; w_maps = list_ nat_ m }
@@ -77,11 +77,6 @@ let () =
         List [of_bool (M.c14_order w1 w2 p c); of_bool (M.c14_order_files w1 w2 p c);
               of_bool (M.c14_valid_sched w1 p c && M.c14_valid_sched w2 p c)]
     | _ -> failwith "c14-order: bad case");
-  Registry.register "path" (fun s ->
-    (* (w project1 project2 config) -> the fingerprints differ only through the spelling of the file paths *)
-    match list s with
-    | [w; p1; p2; c] -> of_bool (M.c14_path (sched_ w) (project_ p1) (project_ p2) (config_ c))
-    | _ -> failwith "c14-path: bad case");
   Registry.register "idem" (fun s ->
     match list s with
     | [r; n] -> of_bool (M.c14_idem_ok (result_ r) (nat_ n))
